@@ -619,7 +619,12 @@ class PDFStandardSecurityHandlerV5(PDFStandardSecurityHandlerV4):
             return None
 
     def authenticate(self, password: str) -> Optional[bytes]:
-        password_b = self._normalize_password(password)
+        try:
+            password_b = self._normalize_password(password)
+        except ValueError:
+            # A password that SASLprep refuses (prohibited characters, mixed
+            # directionality) cannot be the right one.
+            return None
         hash = self._password_hash(password_b, self.o_validation_salt, self.u)
         if hash == self.o_hash:
             hash = self._password_hash(password_b, self.o_key_salt, self.u)
